@@ -85,6 +85,7 @@ def run(ctx):
         ctx.oblige('suite COMPILE (real build = Abs.compile on every generated program, both stores)', 'suite', ndiff == 0, f'{ndiff} difference(s)')
         # the elaboration Abs.Source.elabSrc (Lemmas/SourceRep.lean: lexer model -> reference parser -> elaboration, the function the
         # source-level theorem C01_source_* speaks about) against the generator's AST: wherever it is defined it must be that AST
+        # (same-p: the source has side-effect blocks, which the reference parser does not cover; the tree is the parser model's own)
         el = vlib.run_model([['ELAB', c[1], vlib.esc(src), c[2]] for c, src in zip(comp, comp_src)], 'c01elab')
         import collections
         edist, ndiffer = collections.Counter(), 0
@@ -94,7 +95,7 @@ def run(ctx):
             if key.startswith('none') and 'seafter' not in c[2] and 'sebefore' not in c[2]:
                 key += ' (no side-effect block in the program)'
             edist[key] += 1
-            if key not in ('same',) and not key.startswith('none'):
+            if key not in ('same', 'same-p') and not key.startswith('none'):
                 ndiffer += 1
                 ctx.fail('corr', ['ELAB', c[1], c[2]], impl=c[2][:500], model=r[:500], expect='same',
                          note='the elaboration of the reference tree of the printed source is not the generator\'s AST')
